@@ -270,6 +270,10 @@ class StreamRun(Case):
     def call(self, mod, e):
         from pyvc import driver, tablemodel
 
+        if getattr(e, "mode", None) == "real":
+            # replay / bounded stand-in: the real stream classes on numpy / pandas tables
+            out = self._real_call(e)
+            return ("real", out, list(LOG), None)
         T = driver.targets()
         install_probes()
         del LOG[:]
@@ -322,7 +326,74 @@ class StreamRun(Case):
                         out.append((ci, w, sid, name, params))
         return out
 
+    def _post_real(self, e, out, log):
+        """the same clauses evaluated on a run of the real stream classes (concrete table)"""
+        import numpy as np
+
+        cv = lambda x: (alg.as_concrete(x) if alg.is_sym(x) else x)  # noqa: E731
+        n = cv(e.n)
+        t = [int(cv(e.t.val(i))) for i in range(n)]
+
+        def column(col):
+            return [None if cv(col.nan(i)) else float(cv(col.val(i))) for i in range(n)]
+
+        cols = {"inp": column(e.v), "tinp": t}
+        have_aux = self.params["aux"] == "all"
+        if have_aux:
+            cols.update({"zinp": column(e.z), "lat": column(e.lat), "lon": column(e.lon)})
+
+        def inw(w, i):
+            ok = True
+            if w in ("both", "start"):
+                ok = ok and t[i] >= int(cv(e.start.val))
+            if w in ("both", "end"):
+                ok = ok and t[i] < int(cv(e.end.val))
+            return ok
+
+        def as_list(a):
+            a = np.asarray(a.to_numpy() if hasattr(a, "to_numpy") else a)
+            if a.dtype.kind == "M":
+                return [int(x) for x in a.astype("datetime64[ns]").astype("int64")]
+            return [None if (isinstance(x, float) and x != x) else (float(x) if isinstance(x, (int, float, np.number)) else x) for x in a.tolist()]
+
+        exp = self.expected_calls()
+        if len(out) != len(exp):
+            return {"one_result_per_healthy_call": False}
+        okc = oka = okf = True
+        li = 0
+        for (cr, (ci, w, sid, name, params)) in zip(out, exp):
+            short = name.replace("probe_", "")
+            mask = [inw(w, i) for i in range(n)]
+            rows = [i for i in range(n) if mask[i]]
+            okc = okc and cr.stream_id == sid
+            oka = oka and [bool(b) for b in np.asarray(cr.subset_indexes).tolist()] == mask
+            if short == "alpha" and not have_aux:
+                okf = okf and len(cr.results) == 0
+                continue
+            if li >= len(log) or log[li][0] != short:
+                return {"one_result_per_healthy_call": False}
+            kw = log[li][1]
+            li += 1
+            want = ["inp", "tinp"] + (["zinp", "lat", "lon"] if short == "alpha" else [])
+            for an in want:
+                oka = oka and as_list(kw.get(an)) == [cols[an][i] for i in rows]
+            for pn, pv in params.items():
+                oka = oka and kw.get(pn) == pv
+            if short == "boom":
+                okf = okf and len(cr.results) == 0
+                continue
+            okc = okc and len(cr.results) == 1
+            if len(cr.results) == 1:
+                r = cr.results[0]
+                okc = okc and r.package == "pyvc_probe" and r.test == name
+                oka = oka and [int(x) for x in np.asarray(r.results).tolist()] == [1 if short == "alpha" else 3] * len(rows)
+            oka = oka and as_list(cr.data) == [cols["inp"][i] for i in rows]
+        okc = okc and li == len(log)
+        return {"window_rows_and_arguments": bool(oka), "one_result_per_healthy_call": bool(okc), "failing_entries_yield_nothing": bool(okf)}
+
     def post_global(self, e, res):
+        if isinstance(res.value, tuple) and res.value and res.value[0] == "real":
+            return self._post_real(e, res.value[1], res.value[2])
         out, log, config = res.value
         exp = self.expected_calls()
         k = z3.Int("k!row")
